@@ -118,8 +118,6 @@ def oracle_sets(sa, atoms_conv, n, tol):
         if reported != free:
             out.append("set %s %s reports %s, free variables are %s" % (ws.element, ws.wyckoff_letter, sorted(reported), sorted(free)))
             continue
-        if not free:
-            continue
         vals = [getattr(ws, v) if v in reported else 0.0 for v in "xyz"]
         if any(not (0 <= v < 1) for v in vals):
             out.append("parameter outside [0,1): %s" % vals)
@@ -173,6 +171,96 @@ def monitor(ctx, pairs):
     return bad
 
 
+def oracle_sets_2d(sa, conv, num, tol):
+    """C08 on a two-dimensionally periodic input, clause by clause.  Returns a list of (signature, text): the signature is the
+    failure mode (used in the finding key, so that the two recorded known failure modes of 2D inputs — the parameter solver
+    raising ValueError, and representatives that are displaced along the non-periodic axis because the returned cell was
+    re-centred and cut to the layer — do not hide any other deviation)."""
+    import crystals
+    from affine import from_expression_strings
+    W = crystals.wyckoff_tables()[num]
+    out = []
+    try:
+        sets = sa.get_wyckoff_sets_conventional(return_parameters=True)
+    except ValueError as e:
+        if "Could not resolve the free Wyckoff parameters" in str(e):
+            return [("cannot-resolve", "get_wyckoff_sets_conventional(return_parameters=True) raises: %s" % str(e)[:120])]
+        return [("exception", "ValueError: %s" % str(e)[:150])]
+    pos = conv.get_scaled_positions()
+    cell = np.array(conv.get_cell())
+    any_param = False
+    for ws in sets:
+        free = set(W[ws.wyckoff_letter]["variables"])
+        reported = {v for v in "xyz" if getattr(ws, v) is not None}
+        any_param = any_param or bool(reported)
+        if reported != free:
+            out.append(("variables", "set %s %s reports %s, free variables are %s" % (ws.element, ws.wyckoff_letter, sorted(reported), sorted(free))))
+            continue
+        vals = [getattr(ws, v) if v in reported else 0.0 for v in "xyz"]
+        if any(not (0 <= v < 1) for v in vals):
+            out.append(("range", "parameter outside [0,1): %s" % vals))
+        e = from_expression_strings(ws.representative)
+        if e is None:
+            out.append(("representative", "unparsable representative %r" % (ws.representative,)))
+            continue
+        p = np.array([sum(e.R[c][k] * vals[k] for k in range(3)) + e.t[c] / 24.0 for c in range(3)])
+        d = pos[ws.indices] - p
+        d[:, :2] -= np.rint(d[:, :2])            # lattice translations exist in the plane only
+        inplane = np.linalg.norm(d[:, :2] @ cell[:2, :], axis=1)
+        full = np.linalg.norm(d @ cell, axis=1)
+        lim = max(tol, 1e-3) * 1.5 + 1e-6
+        if inplane.min() > lim:
+            out.append(("inplane", "representative %s at %s misses every atom of its set in the plane by %.4f A" % (ws.representative, vals, inplane.min())))
+        elif full.min() > lim:
+            out.append(("offset-along-c", "representative %s at %s matches an atom of its set in the plane but is %.4f A away along the non-periodic axis"
+                        % (ws.representative, vals, full[np.argmin(inplane)])))
+    flag = sa.get_has_free_wyckoff_parameters()
+    if bool(flag) != any_param:
+        out.append(("flag", "has_free_wyckoff_parameters=%s but sets carry parameters: %s" % (flag, any_param)))
+    return out
+
+
+def monitor_2d(ctx, n_cases, extra=()):
+    """two-dimensionally periodic inputs of the property: layers in the layer-compatible space groups and the MX2 / graphene /
+    BN monolayers; `extra` = recorded inputs of the known findings (examined first)"""
+    import crystals
+    import families as F
+    from props import c11
+    from matid.symmetry.symmetryanalyzer import SymmetryAnalyzer
+    rng = np.random.default_rng(ctx.seed + 808)
+    bad = []
+    todo = [(crystals.atoms_from_json(x["atoms"]), dict(x.get("meta", {}), known_finding_input=True)) for x in extra]
+    monos = F.monolayers()
+    k = 0
+    while len(todo) < len(extra) + n_cases and k < n_cases * 12:
+        k += 1
+        if k % 6 == 0:
+            name, make, _ = monos[(k // 6) % len(monos)]
+            at = make()
+            at.set_pbc([True, True, False])
+            todo.append((at, {"layer": name}))
+        else:
+            g = c11.LAYER_GROUPS[k % len(c11.LAYER_GROUPS)]
+            at = c11.make_layer(rng, g)
+            if at is not None:
+                todo.append((at, {"layer_group": g}))
+    for at, meta in todo:
+        try:
+            sa = SymmetryAnalyzer(at, symmetry_tol=1e-3)
+            conv = sa.get_conventional_system()
+            num = sa.get_space_group_number()
+            res = oracle_sets_2d(sa, conv, num, 1e-3)
+        except Exception as e:  # noqa
+            res = [("exception", "%s: %s" % (type(e).__name__, str(e)[:150]))]
+            num = None
+        ctx.case(("2d", json.dumps(meta, sort_keys=True), len(at)))
+        ctx.count("e2e_2d_inputs")
+        for sig, text in res:
+            ctx.count("2d_" + sig)
+            bad.append({"signature": sig, "text": text, "group": num, "atoms": crystals.atoms_to_json(at), "meta": meta})
+    return bad
+
+
 def run(ctx):
     common.install_matid()
     import gen_tables
@@ -214,6 +302,15 @@ def run(ctx):
     bad = monitor(ctx, e2e_pairs)
     for b in bad[:8]:
         ctx.finding("crystal:%d:%s" % (b["group"], b["letter"]), "group %d letter %s: %s" % (b["group"], b["letter"], b["complaints"][0]), {"kind": "failing-input", "case": b})
+    # two-dimensionally periodic inputs (the recorded inputs of the known findings first)
+    extra = [e["repro"] for e in common.known_findings().get("known", []) if e.get("property") == "C08" and "repro" in e]
+    seen2d = set()
+    for b in monitor_2d(ctx, ctx.n(40, 900), extra):
+        if b["signature"] in seen2d:
+            continue
+        seen2d.add(b["signature"])
+        ctx.finding("2d:" + b["signature"], "2D input (group %s): %s" % (b["group"], b["text"]), {"kind": "failing-input", "case": b,
+                    "how": "SymmetryAnalyzer(atoms with pbc TTF, symmetry_tol=1e-3).get_wyckoff_sets_conventional(return_parameters=True)"})
     import analyzer_hist
     analyzer_hist.check(ctx, "C08", broken)
     if broken and not ctx.findings:
